@@ -339,6 +339,21 @@ def judgeOp (env : Env) (parts : List String) (resp : String) : Verdict :=
   | ["tx.parse", j] => match unhex j with
     | some j => judgeTxParse j resp
     | none => .skip
+  | ["tx.sign", j, key] => match unhex j, unhex key with
+    | some j, some key =>
+      -- same judge as `sign transaction`: strict decode, fields, v, verify + recover over the
+      -- EIP-155/2718 payload; plus the reported signing digest
+      match resp.splitOn " " with
+      | ["ok", dg, enc, _, _, _] =>
+        match Tx.parse j, unhex enc with
+        | .ok tx, some encb =>
+          if dg != hx (Prim.keccak256 (Spec.Tx.signingPayload tx)) then .fails "signing digest is not keccak256 of the payload without signature"
+          else
+            let text := "0x" ++ String.ofList (hexEncode encb) ++ "\n"
+            judgeSignTx (beVal key) j false true ("ok " ++ hx text.toUTF8.toList)
+        | _, _ => .fails "accepted although the document does not parse"
+      | _ => judgeSignTx (beVal key) j false true resp
+    | _, _ => .skip
   | ["td.hash", j] => match unhex j with
     | some j => judgeTdHash j resp
     | none => .skip
@@ -424,6 +439,27 @@ def judgeCli (env : Env) (parts : List String) (resp : String) : Judge.Verdict :
   | ["cli.hex_decode", d] => match unhex d with
     | some b => Judge.judgeHexDecode b resp
     | none => .skip
+  | ["cli.new", len, stream] =>
+    match utf8Arg len, streamArg stream with
+    | some len, some st =>
+      match (String.ofList len).toNat? with
+      | none => .skip
+      | some n =>
+        let inject : Option Bytes := match st with | some b :: _ => some b | _ => none
+        -- rewrite the CLI response (stdout = phrase + newline) into the shape of `mn.random`
+        let resp' := match resp.splitOn " " with
+          | ["ok", out] =>
+            match unhex out with
+            | some o =>
+              let text := (String.fromUTF8? ⟨o.toArray⟩).getD ""
+              if text.endsWith "\n" then
+                let ph := (text.dropEnd 1).toString
+                s!"ok {hx ph.toUTF8.toList} {(ph.splitOn " ").length} {n * 4 / 3}"
+              else "bad-output"
+            | none => "bad-output"
+          | _ => resp
+        Judge.judgeMnRandom n inject resp'
+    | _, _ => .skip
   | _ => .skip
 
 def runJudgeLine (env : Env) (line : String) : String :=
